@@ -506,7 +506,7 @@ def table_case(draw, tier="quick"):
         colsel = draw(st.sampled_from(["int", "all", "slice", "name", "names", "mixed"]))
         vals = {"x": draw(vk(c)) if colsel in ("int", "name") else draw(st.integers(-3, 3)) if all(kd in ("int", "float") for kd in kinds) else None,
                 "rows": rows, "rows_form": draw(st.sampled_from(["list", "tuple", "vector"])), "colsel": colsel,
-                "mask": draw(st.lists(st.booleans(), min_size=n, max_size=n))}
+                "mask": draw(st.lists(st.booleans(), min_size=n, max_size=n)), "as_list1": draw(st.integers(0, 3)) == 0}
     elif form in ("region_scalar", "mask_scalar"):
         vals = {"x": draw(vk(c0 if c0 < k else 0)), "mask": draw(st.lists(st.booleans(), min_size=n, max_size=n))}
     else:
@@ -621,6 +621,11 @@ def run_table(case, ctx):
         value = vals["x"]
         addressed = {(i, j) for i in rows_ for j in cols_}
         want = {p: value for p in addressed}
+        if vals.get("as_list1") and cs_ in ("int", "name") and value is not None:
+            # the value as a one-element list / tuple: one value for one cell - for any other number of rows a length mismatch
+            value = [value] if vals["rows_form"] != "tuple" else (value,)
+            if len(rows_) != 1:
+                ok_model = False
         if cs_ == "mixed" and len(cols_) == 2 and rows_:
             # one row, two columns named in this order (a position, then a name), one value for each: the order pairs them up
             kd_ = [ref_dtype(cols[j][1])[0] for j in cols_]
